@@ -312,11 +312,54 @@ static inline int arena_of(uintptr_t x) {
 
 static void race_free_block(uintptr_t p, size_t n);
 
+// Address reuse (--param reuse=1, sequentially consistent cases only): instead of quarantining every freed block
+// forever, a freed block of arena 0 is handed out again by the next allocation of the same (rounded) size, most
+// recently freed first - what a thread-caching malloc does.  This makes ABA situations reachable (a pointer value
+// that is re-published for a different object).  Use-after-free of a block is then only detected until it is reused,
+// so jobs with reuse run next to, not instead of, the quarantine jobs.
+static bool g_reuse = false;
+static uint64_t g_reused_blocks = 0;
+struct FreeList {
+  uint32_t rsize, n;
+  uintptr_t p[48];
+};
+static FreeList g_fl[48];
+static FreeList* freelist_for(uint32_t rsize, bool create) {
+  for (auto& f : g_fl) {
+    if (f.rsize == rsize) return &f;
+    if (f.rsize == 0) {
+      if (!create) return nullptr;
+      f.rsize = rsize;
+      return &f;
+    }
+  }
+  return nullptr;
+}
+
 static void* arena_alloc(size_t size, size_t align) {
   uint8_t tag = t_tid >= 0 ? G.thr[t_tid].alloc_tag : TAG_DEFAULT;
   Arena& a = AR[tag == TAG_HARNESS ? 1 : 0];
   if (align < 16) align = 16;
   if (size == 0) size = 1;
+  if (g_reuse && tag != TAG_HARNESS && align == 16) {
+    FreeList* f = freelist_for((uint32_t)((size + 15) & ~(size_t)15), false);
+    if (f && f->n) {
+      uintptr_t p = f->p[--f->n];
+      BlkHdr* h = (BlkHdr*)(p - 16);
+      h->size = (uint32_t)size;
+      h->seq = ++g_alloc_seq;
+      h->tag = tag;
+      uint8_t* sh = a.shadow + ((p - a.base) >> 4);
+      size_t full = size >> 4;
+      memset(sh, S_FULL, full);
+      if (size & 15) sh[full] = (uint8_t)(size & 15);
+      g_live_blocks[tag & 3]++;
+      g_alloc_count[tag & 3]++;
+      g_live_bytes[tag & 3] += size;
+      g_reused_blocks++;
+      return (void*)p;
+    }
+  }
   uintptr_t p = (a.bump + 16 + align - 1) & ~(uintptr_t)(align - 1);
   uintptr_t end = (p + size + 15) & ~(uintptr_t)15;
   if (end + 16 > a.base + a.size) inconclusive("arena_exhausted");
@@ -351,6 +394,10 @@ static void arena_free(void* ptr) {
   memset(ptr, 0xDD, size);
   g_live_blocks[h->tag & 3]--;
   g_live_bytes[h->tag & 3] -= size;
+  if (g_reuse && ai == 0) {
+    FreeList* f = freelist_for((uint32_t)((size + 15) & ~(size_t)15), true);
+    if (f && f->n < 48) f->p[f->n++] = p;
+  }
 }
 
 static const char* describe_block(uintptr_t x, char* buf, size_t n) {
@@ -400,6 +447,7 @@ uint8_t set_alloc_tag(uint8_t tag) {
 size_t live_blocks(uint8_t tag) { return g_live_blocks[tag & 3]; }
 size_t live_bytes(uint8_t tag) { return g_live_bytes[tag & 3]; }
 uint64_t alloc_count(uint8_t tag) { return g_alloc_count[tag & 3]; }
+uint64_t reused_blocks() { return g_reused_blocks; }
 bool is_live(const void* p) {
   uintptr_t x = (uintptr_t)p;
   int ai = arena_of(x);
@@ -1532,6 +1580,7 @@ void case_begin(Shm* shm) {
   G.livelock_steps = param("livelock_steps", 12000);
   g_watch = (uintptr_t)param("watch", 0);
   g_trace = param("trace", 0) != 0;
+  g_reuse = param("reuse", 0) != 0 && !(g_shm->flags & F_WEAK);
   t_tid = 0;
   G.cur = 0;
   Thr& m = G.thr[0];
@@ -1579,6 +1628,7 @@ void case_begin(Shm* shm) {
 }
 
 void case_end_pass() {
+  if (g_reused_blocks > 0) label("address_reused");
   g_shm->verdict = V_PASS;
   finish_traces();
 }
